@@ -1668,6 +1668,49 @@ fn script_ergsym_before_tip902(h: &mut Hist, r: &mut Rng) {
     h.bump("history:ergsym-before-tip902-script");
 }
 
+/// A scripted history from a real Testnet genesis (not a fabricated state) through the TIP activation height 500: the
+/// genesis coin is left alone or moved in block 0, about five hundred empty blocks are sealed, and the coins are spent
+/// after the activation.  The one-off count migration starts from the tree the genesis built: a count entry written
+/// before the activation, or a coin the migration does not see, shows in the counts from block 500 on.
+fn script_testnet_from_genesis(h: &mut Hist, r: &mut Rng) {
+    let a0 = h.wallet.spec_addr(CovSpec::StdNew(0));
+    let a1 = h.wallet.spec_addr(CovSpec::StdNew(1));
+    let cfg = GenesisConfig {
+        network: NetID::Testnet,
+        init_coindata: crate::txgen::out(a0, 1u128 << 40, Denom::Mel),
+        stakes: BTreeMap::new(),
+        init_fee_pool: CoinValue(1 << 20),
+        init_fee_multiplier: 0,
+    };
+    let mut u = h.op_genesis(cfg);
+    let gen = WCoin { id: CoinID::zero_zero(), cdh: CoinDataHeight { coin_data: crate::txgen::out(a0, 1u128 << 40, Denom::Mel), height: BlockHeight(0) }, spec: CovSpec::StdNew(0) };
+    // the coin that is there at the activation: the genesis coin itself, or two coins made from it in block 0
+    let mut live: Vec<WCoin> = vec![gen.clone()];
+    if r.chance(1, 2) {
+        let mv = assemble(&h.wallet, TxKind::Normal, &[gen], vec![crate::txgen::out(a1, 1u128 << 39, Denom::Mel), crate::txgen::out(a1, 1u128 << 39, Denom::Mel)], 0, vec![]);
+        h.w.names.reg_tx(&mv);
+        let Some(u1) = h.op_batch(&u, &[mv.clone()], "fromgenesis:move-genesis-coin") else { return };
+        u = u1;
+        live = (0..2u8).map(|i| WCoin { id: mv.output_coinid(i), cdh: CoinDataHeight { coin_data: mv.outputs[i as usize].clone(), height: BlockHeight(0) }, spec: CovSpec::StdNew(1) }).collect();
+    }
+    while h.parts(&u).height.0 < 501 {
+        let Some(s) = h.op_seal(&u, None) else { return };
+        let Some(nu) = h.op_next(&s) else { return };
+        u = nu;
+    }
+    // after the activation: spend what was there before it, one coin per block
+    for c in live {
+        let v = c.cdh.coin_data.value.0;
+        let t = assemble(&h.wallet, TxKind::Normal, &[c], vec![crate::txgen::out(a0, v, Denom::Mel)], 0, vec![]);
+        h.w.names.reg_tx(&t);
+        let Some(b) = h.op_batch(&u, &[t], "fromgenesis:spend-after-activation") else { return };
+        let Some(s) = h.op_seal(&b, None) else { return };
+        let Some(nu) = h.op_next(&s) else { return };
+        u = nu;
+    }
+    h.bump("history:testnet-from-genesis-script");
+}
+
 /// A scripted history across the TIP-906 activation (Testnet height 500): a faucet accepted before it, replayed in every
 /// block up to and after it — "at most once over the whole life of the chain" includes the block in which the coin tree
 /// is rebuilt with counts — and a faucet first accepted after the activation, replayed once more.
@@ -2066,6 +2109,10 @@ fn history_body(h: &mut Hist, r: &mut Rng, em: &Emphasis) {
     }
     if em.pool_ops >= 10 && r.chance(1, 16) {
         script_heavy_deposits(h, r);
+        return;
+    }
+    if em.tip_edges > 0 && r.chance(1, 30) {
+        script_testnet_from_genesis(h, r);
         return;
     }
     if em.tip_edges > 0 && r.chance(1, 10) {
